@@ -1,4 +1,4 @@
-CONSTANTS MaxSegs = 2 MaxLen = 3
+CONSTANTS MaxSegs = 2 MaxLen = 2
 SPECIFICATION Spec
 INVARIANT RoundTrip
 INVARIANT NoRawReserved
